@@ -271,11 +271,39 @@ def _evaluation_loops(repo: Repo, f: FuncInfo, p):
     pm = L.parents_of(f)
     ops = _operand_loops(f, p)
     out = []
+    g = C.cfg_of(f.node)
+
+    def resolve_all(e, depth=0):
+        """the defining expressions of a local name (followed through copies and results of helpers analysed in place)"""
+        if isinstance(e, ast.Name) and depth < 8:
+            try:
+                at = p.node_of(e)
+            except KeyError:
+                return [e]
+            defs = [d for d in p.rd.defs_reaching(at, e.id) if d != g.entry]
+            out = []
+            for d in defs:
+                st = g.stmt[d]
+                if isinstance(st, (ast.Assign, ast.AnnAssign)) and st.value is not None and \
+                        (isinstance(st, ast.AnnAssign) or (len(st.targets) == 1 and isinstance(st.targets[0], ast.Name))):
+                    out += resolve_all(st.value, depth + 1)
+                else:
+                    out.append(e)
+            return out or [e]
+        return [e]
+
+    def resolve(e):
+        """the table call among the definitions (a sentinel / default among them is filtered by a test the fold does not depend on)"""
+        cands = [c for c in resolve_all(e) if isinstance(c, ast.Call) and len(c.args) == 2 and _is_table_call(p, c)]
+        return cands or [e]
+
     for lp in ops:
         folds = []
         for n in ast.walk(lp):
-            if isinstance(n, ast.Assign) and len(n.targets) == 1 and isinstance(n.targets[0], ast.Name) and isinstance(n.value, ast.Call) \
-                    and len(n.value.args) == 2 and _is_table_call(p, n.value):
+            if isinstance(n, ast.Assign) and len(n.targets) == 1 and isinstance(n.targets[0], ast.Name):
+                calls = [c for c in resolve(n.value) if isinstance(c, ast.Call) and len(c.args) == 2 and _is_table_call(p, c)]
+                if not calls:
+                    continue
                 # nearest enclosing operand loop must be lp
                 cur, near = n, None
                 while cur in pm:
@@ -283,8 +311,12 @@ def _evaluation_loops(repo: Repo, f: FuncInfo, p):
                     if cur in ops:
                         near = cur
                         break
-                if near is lp and isinstance(n.value.args[0], ast.Name) and n.value.args[0].id == n.targets[0].id:
-                    folds.append(Fold(n, n.targets[0].id, n.value))
+                if near is not lp:
+                    continue
+                acc_name = n.targets[0].id
+                for call in calls:
+                    if _resolves_to(p, g, call.args[0], acc_name):
+                        folds.append(Fold(n, acc_name, call))
         if folds:
             accs = {x.acc for x in folds}
             if len(accs) != 1:
@@ -509,6 +541,9 @@ def rule_foldarms(repo: Repo) -> RuleResult:
     if not D.tests:
         raise AnalysisError(f"{EVAL}: isinstance dispatch of the evaluator not recognised")
     fold_ids = {id(x.stmt) for x in folds}
+    folds_of: Dict[int, list] = {}
+    for x in folds:
+        folds_of.setdefault(id(x.stmt), []).append(x)
     node_src = {x[:-1] for x in p.trace(loop.iter) if x[-1] == "attr:operands"}
     elem = {x + ("elem",) for x in p.trace(loop.iter)}
     pm = L.parents_of(f)
@@ -533,20 +568,22 @@ def rule_foldarms(repo: Repo) -> RuleResult:
                 r.fail(Finding("C02.foldarms", f, f"arm-no-fold:{cls}", f"an operand of class {cls} does not update the accumulator", node=loop))
             continue
         bad = [s_ for s_ in assigns if id(s_) not in fold_ids]
-        key_ok = all(all(x[-1] == "attr:binary_operator" and x[:-1] in node_src for x in _table_key(p, s_.value)) and _table_key(p, s_.value)
-                     for s_ in assigns if id(s_) in fold_ids)
+        # the fold calls that are executed for this class (one accumulator assignment may take its value from several arms)
+        live = [x for s_ in assigns for x in folds_of.get(id(s_), []) if g.node_containing(x.call) in seen]
+        if not bad and not live:
+            bad = assigns[:1]
+        key_ok = all(all(x[-1] == "attr:binary_operator" and x[:-1] in node_src for x in _table_key(p, x_.call)) and _table_key(p, x_.call) for x_ in live)
         if bad:
             r.fail(Finding("C02.foldarms", f, f"arm-overwrites:{cls}", f"for an operand of class {cls} the accumulator is overwritten "
                            f"({unparse(bad[0], 70)}) instead of folded: the value of earlier operands is lost", node=bad[0]))
         elif not key_ok:
             r.fail(Finding("C02.foldarms", f, f"arm-operator:{cls}", "the fold does not use the current node's operator", node=assigns[0]))
         else:
-            s_ = assigns[0]
-            v = p.trace(s_.value.args[1])
-            if any(any(x[:len(e)] == e for e in elem) for x in v):
-                r.ok({"class": cls, "folds": unparse(s_.value.args[1], 60)})
+            wrong = [x_ for x_ in live if not any(any(x[:len(e)] == e for e in elem) for x in p.trace(x_.call.args[1]))]
+            if not wrong:
+                r.ok({"class": cls, "folds": unparse(live[0].call.args[1], 60)})
             else:
-                r.fail(Finding("C02.foldarms", f, f"arm-value:{cls}", "the folded value does not derive from the operand", node=s_))
+                r.fail(Finding("C02.foldarms", f, f"arm-value:{cls}", "the folded value does not derive from the operand", node=wrong[0].stmt))
     r.site(f"{f.qn} [else]")
     # an element of a class that no test accepts must be rejected
     none = {a: False for a in D.valuation("object")}
